@@ -18,6 +18,21 @@ def post(chk, recs, cases):
     kcrit = critical_failures(max(len(feas), 1))
     chk.cov["variants_without_verdict"] = {"of_solved_bases": len(feas), "without_verdict": len(nov), "critical": kcrit,
                                            "examples": [{"label": c["input"]["label"], "variant": c["input"]["variant"], "status": c["input"]["status"]} for c in nov[:5]]}
+    # variants that change nothing numerically hard (settings toggles, backends, permutations,
+    # splitting / merging, moderate objective scalings, P given in full): on the unchanged tree no
+    # such variant of a solved base ever ended without a verdict (seeds 1..5: 0 of ~400 each), so
+    # three or more in one run are reported.  Extreme objective scalings (2^+-24) and the
+    # non-default-tolerance pairs stay under the binomial rule below.
+    def mild(c):
+        v = c["input"].get("variant", "")
+        return not (v.startswith("objective scaled by 16777216") or v.startswith("objective scaled by 0.00000005960464477539")
+                    or v.startswith("tolerances"))
+    novm = [c for c in nov if mild(c)]
+    chk.cov["variants_without_verdict"]["mild_without_verdict"] = len(novm)
+    if len(novm) >= 3:
+        chk.violation({"property": "C05", "kind": "mild variants without verdict", "what": "equivalent configurations / formulations of solved problems (toggles, backends, permutations, moderate scalings) end without a verdict",
+                       "count": len(novm), "examples": [{"label": c["input"]["label"], "variant": c["input"]["variant"], "status": c["input"]["status"]} for c in novm[:6]],
+                       "input": novm[0]["input"]})
     if len(feas) >= 100 and len(nov) >= kcrit:
         chk.violation({"property": "C05", "kind": "variants without verdict", "what": "equivalent formulations of solved problems end without a verdict far more often than sampling noise allows",
                        "stats": chk.cov["variants_without_verdict"], "input": nov[0]["input"]})
